@@ -136,6 +136,73 @@ def run(ctx):
                     cases.append(("JDesCompact97 %s %s %s %s %s %s" % (J.c_table(rows), c_hex(tok), J.c_keysrc(pub_key), c_opt(None if safe else pl, c_hex),
                                                                       J.c_algs([alg]), J.c_compact_result(r)),
                                   {"fn": "deserialize_compact97", "what": alg}))
+        # ---------- the emitted segments are exactly BASE64URL(UTF8(JSON(the protected header given)))
+        # every producing entry point x (protected only / unprotected only / both / kid in either) x b64
+        def canon(hd):
+            return REF.b64u_enc(REF._ser(hd).encode("utf-8"))
+
+        for alg in (J.ALL_ALGS if not ctx.quick else ["HS256", "ES256", "RS256", "EdDSA", "PS384", "ES512"]):
+            kn = J.ALG_KEYS[alg][0]
+            k = K[kn]
+            prv_jwk, pub_jwk = jwks(kn)
+            pub_key = J.pubkey_of(k)
+            for b64 in (None, True, False):
+                base = {"alg": alg}
+                if b64 is not None:
+                    base.update({"b64": b64, "crit": ["b64"]})
+                members = [("protected-only", {"protected": dict(base)}),
+                           ("both", {"protected": dict(base), "header": {"kid": kn, "cty": "a/b"}}),
+                           ("both-kid-protected", {"protected": dict(base, kid=kn), "header": {"typ": "x"}}),
+                           ("unprotected-only", {"header": dict(base, kid=kn)})]
+                pl = rng.choice([b"hello", b"a.b", "h\u00e9llo".encode(), b"urlsafe_9"])
+                # compact
+                note("emit:compact:b64=%s" % b64)
+                ctx.note_case(("emit-compact", alg, b64, pl))
+                hd = dict(base, kid=kn)
+                r = call(r97.serialize_compact if b64 is not None else jws.serialize_compact, dict(hd), pl, k, [alg])
+                rec.take()
+                if r[0] != "ok":
+                    ctx.violation({"kind": "sign-failed"}, "serialize_compact failed: %r" % (r[1],), {"alg": alg, "b64": b64})
+                else:
+                    hs, ps, ss = r[1].split(".")
+                    want_p = REF.b64u_enc(pl) if b64 is not False else (pl.decode("utf-8") if ps else "")
+                    if hs != canon(hd) or ps != want_p:
+                        ctx.violation({"kind": "emitted-segment", "ser": "compact", "b64": b64},
+                                      "compact %s: header segment %r (expected %r), payload segment %r (expected %r)" % (alg, hs, canon(hd), ps, want_p),
+                                      {"alg": alg, "b64": b64, "token": r[1]})
+                for mname, m in members:
+                    for entry in (("flat", "general") if b64 is None else ("flat",)):
+                        note("emit:%s:%s:b64=%s" % (entry, mname, b64))
+                        ctx.note_case(("emit", alg, b64, mname, entry, pl))
+                        marg = copy.deepcopy(m) if entry == "flat" else [copy.deepcopy(m), copy.deepcopy(m)]
+                        rec.take()
+                        r = call(r97.serialize_json if b64 is not None else jws.serialize_json, marg, pl, k, [alg])
+                        rows, _ = rec.take()
+                        rp = {"alg": alg, "b64": b64, "member": m, "entry": entry, "payload_hex": pl.hex()}
+                        if b64 is not None and entry == "flat":
+                            cases.append(("JSerJson97 %s %s %s %s %s %s %s" % (J.c_table(rows), c_bool(fixed), J.c_smember(m), c_hex(pl), J.c_keysrc(k),
+                                                                              J.c_algs([alg]), J.c_res(r, J.c_jval)),
+                                          {"fn": "serialize_json97", "what": "emit-%s:%s" % (alg, mname)}))
+                        if r[0] != "ok":
+                            ctx.violation({"kind": "sign-failed"}, "serialize_json failed: %r" % (r[1],), rp)
+                            continue
+                        out = r[1]
+                        for sg in (out["signatures"] if entry == "general" else [out]):
+                            prot = m.get("protected")
+                            if (sg.get("protected") != (canon(prot) if prot else None)) or (sg.get("header") != m.get("header")):
+                                ctx.violation({"kind": "emitted-segment", "ser": entry, "b64": b64},
+                                              "%s JSON (%s, %s): emitted protected %r / header %r, expected BASE64URL(JSON(protected header given)) = %r / %r" % (
+                                                  entry, alg, mname, sg.get("protected"), sg.get("header"), canon(prot) if prot else None, m.get("header")), dict(rp, value=out))
+                        want_p = REF.b64u_enc(pl) if b64 is not False else pl.decode("utf-8")
+                        if out.get("payload") != want_p:
+                            ctx.violation({"kind": "emitted-segment", "ser": entry, "b64": b64}, "payload member %r, expected %r" % (out.get("payload"), want_p), dict(rp, value=out))
+                        # the reference (RFC 7515 7.2.1: protected and unprotected names disjoint) verifies it
+                        if mname == "unprotected-only" and b64 is not None:
+                            continue    # b64 outside any protected header: the recorded finding C01-unprotected-b64-no-protected-header
+                        v = call(REF.verify_json, out, lambda i, hdr: pub_jwk)
+                        if v[0] != "ok" or v[1][1] != pl:
+                            ctx.violation({"kind": "reference-rejects-joserfc-token", "alg": alg, "ser": entry + ":" + mname},
+                                          "a %s JSON JWS signed by joserfc (%s, %s, b64=%s) does not verify under the RFC reference: %r" % (entry, alg, mname, b64, v[1]), dict(rp, value=out))
         # ---------- ES* name x EC curve x hash, signed with pyca directly: joserfc and the reference must agree
         from cryptography.hazmat.primitives.asymmetric import ec as _ec
         from cryptography.hazmat.primitives import hashes as _hs
